@@ -19,6 +19,10 @@ func main() {
 		runHand(os.Args[2:])
 	case "actor":
 		runActor(os.Args[2:])
+	case "conc":
+		runConc(os.Args[2:])
+	case "concchild":
+		runConcChild(os.Args[2:])
 	case "ogm":
 		runOGM(os.Args[2:])
 	case "ogmstress":
